@@ -19,9 +19,14 @@ Definition mroot (hs : list bytes) : bytes := mth bytes hnode hempty hs.
 (* ---------- entries and leaves ---------- *)
 Record entry := mkEntry {
   e_cert : bytes; e_pre : bool; e_ikh : bytes; e_issuers : list bytes; e_precert : bytes;
-  e_names : bytes   (* the names-tile line of this entry (JSON + newline), [] when the
-                       certificate does not parse: x509/JSON are not modelled *)
+  e_names : bytes   (* template of the names-tile line of this entry (JSON of TrimmedEntry +
+                       newline) in which byte 0xff stands for the decimal leaf timestamp; [] when
+                       the certificate does not parse. x509/JSON are not modelled: the harness
+                       obtains the template from the real TrimmedEntry with a sentinel timestamp *)
 }.
+
+Definition names_line (tmpl : bytes) (ts : Z) : bytes :=
+  concat (map (fun b => if Byte.eqb b xff then decZ ts else [b]) tmpl).
 
 Definition leaf_of (e : entry) (idx : N) (ts : Z) : leaf :=
   mkLeaf (e_cert e) (e_pre e) (e_ikh e) (map sha (e_issuers e)) (e_precert e) (Z.of_N idx) false ts.
@@ -605,7 +610,7 @@ Definition new_sleaves (p : pool) (first : N) (ts : Z) : list sleaf :=
   let fix go (l : list pend) (k : N) :=
     match l with
     | [] => []
-    | x :: r => mkSleaf (leaf_of (p_entry x) k ts) (e_names (p_entry x)) :: go r (k + 1)
+    | x :: r => mkSleaf (leaf_of (p_entry x) k ts) (names_line (e_names (p_entry x)) ts) :: go r (k + 1)
     end in go (pl_leaves p) first.
 
 (* sequence(): rotate the pools (under poolMu); sequencePool then reads the clock *)
